@@ -182,6 +182,11 @@ func c10Diff(key string, before, after interface{}, loc string, parentMap map[st
 	}
 	bl, blok := before.([]interface{})
 	al, alok := after.([]interface{})
+	if blok && alok && (bl == nil) != (al == nil) {
+		// an empty list turned into a nil one (or back): observable (JSON [] vs null), so it is a change
+		*out = append(*out, c10Change{loc: loc, container: parentMap, after: after})
+		return
+	}
 	if blok && alok && len(bl) == len(al) {
 		for i := range bl {
 			if !deepEq(bl[i], al[i]) {
@@ -343,6 +348,7 @@ func c10Run(c *Ctx) {
 	newVals := []nv{
 		{"k", "NEW", ""}, {"k", map[string]interface{}{"nk": "NEW"}, ""}, {"ab", "NEW", ""},
 		{"k", "NEW", "k:NEW"}, {"k", 7.5, "k:7.5:num"}, {"k", true, "k:true:bool"},
+		{"k", 644.0, "k:0644:num"}, {"k", -17.0, "k:-017:float"}, {"k", 1000.0, "k:1e3:numeric"}, {"k", 10.0, "k:010:int"},
 	}
 	explore := func(nodes int, wild bool, f func(ch []int) bool) {
 		rt.OrderPolicy = rt.PolicySorted
@@ -420,7 +426,7 @@ func c10Run(c *Ctx) {
 		}
 	}
 	// sub-key family: typed leaves so that value conditions can match
-	g2 := newGen(GenP{Keys: []string{"a", "ab", "k"}, MaxList: 3, MaxKeys: 3, EmptyList: false, EmptyMap: true, ListInList: false, Leaves: []interface{}{"s", 1.0}})
+	g2 := newGen(GenP{Keys: []string{"a", "ab", "k"}, MaxList: 3, MaxKeys: 3, EmptyList: true, EmptyMap: true, ListInList: false, Leaves: []interface{}{"s", 1.0}})
 	subsets := [][]string{{"a:*"}, {"!a:*"}, {"a:s"}, {"!a:s"}, {"a:1:num"}, {"!a:1:num"}, {"ab:*"}, {"z:*"}, {"!z:q"}, {"a:s", "ab:*"}, {"a:*", "!ab:1:num"}, {"!z:*", "a:q"}, {"a:q", "!z:*"}, {"!z:*", "ab:*"}}
 	var paths2 []string
 	seqs([]string{"a", "ab", "k", "*"}, 2, func(s []string) { paths2 = append(paths2, strings.Join(s, ".")) })
